@@ -889,12 +889,21 @@ end
 def AlnumOK (isAlnum : Char → Bool) : Prop :=
   isAlnum '\'' = false ∧ isAlnum '>' = false ∧ isAlnum ')' = false
 
-/-- outcome of the functions that parse one item at `ix`: progress, a boundary, a shallow tree -/
+/-- a literal holds exactly one character (what the `debug_assert_eq!` of `parse_class` checks) -/
+def lit1 : Expr → Prop
+  | .literal v _ => v.length = 1
+  | _ => True
+
+/-- outcome of the functions that parse one item at `ix`: progress, a boundary, a shallow tree,
+    one-character literals -/
 def Item (re : Bytes) (ix d : Nat) (r : Nat × Expr × PState) : Prop :=
-  ix < r.1 ∧ isBoundary re r.1 = true ∧ depth r.2.1 ≤ d
+  ix < r.1 ∧ isBoundary re r.1 = true ∧ depth r.2.1 ≤ d ∧ lit1 r.2.1
 
 theorem depth_mk (k : RefKind) (g : Nat) : depth (k.mk g) = 1 := by
   cases k <;> simp [RefKind.mk, depth]
+
+theorem lit1_mk (k : RefKind) (g : Nat) : lit1 (k.mk g) := by
+  cases k <;> simp [RefKind.mk, lit1]
 
 theorem goodS_parseNumberedBackref {re : Bytes} (hwf : WF re) (st : PState) {ix : Nat}
     (hb : isBoundary re ix = true) (k : RefKind) :
@@ -909,7 +918,7 @@ theorem goodS_parseNumberedBackref {re : Bytes} (hwf : WF re) (st : PState) {ix 
     have := hr _ _ rfl
     simp only
     split
-    · exact ⟨this.1, this.2.1, by simp [depth_mk]⟩
+    · exact ⟨this.1, this.2.1, by simp [depth_mk], lit1_mk _ _⟩
     · simpa using hix
 
 theorem goodS_parseNamedBackref {re : Bytes} (hwf : WF re) (isAlnum : Char → Bool) (st : PState)
@@ -929,7 +938,7 @@ theorem goodS_parseNamedBackref {re : Bytes} (hwf : WF re) (isAlnum : Char → B
     have := hr _ _ _ rfl
     simp only
     split
-    · exact ⟨by simp only; omega, this.2, by simp [depth_mk]⟩
+    · exact ⟨by simp only; omega, this.2, by simp [depth_mk], lit1_mk _ _⟩
     · simpa using hix
 
 theorem idChar_quote {isAlnum : Char → Bool} (h : AlnumOK isAlnum) :
@@ -1011,5 +1020,389 @@ theorem goodS_uniNameLoop {re : Bytes} (hwf : WF re) (ix : Nat) (hix : ix ≤ re
           exact ⟨by omega, hwf.step_ascii hg (by decide)⟩
         · have hpos := codepointLen_pos b
           exact (ih _ (hwf.step hg hb) (by omega)).mono fun a h => ⟨by omega, h.2⟩
+
+/-! ## `parse_escape` -/
+
+theorem GoodS.ite {α : Type} {re : Bytes} {P : α → Prop} {c : Prop} [Decidable c] {t e : Res α}
+    (ht : c → GoodS re P t) (he : ¬c → GoodS re P e) : GoodS re P (if c then t else e) := by
+  split
+  · exact ht ‹_›
+  · exact he ‹_›
+
+theorem Item.mono {re : Bytes} {ix ix' d d' : Nat} {r : Nat × Expr × PState}
+    (h : Item re ix' d' r) (h1 : ix ≤ ix') (h2 : d' ≤ d) : Item re ix d r :=
+  ⟨by have := h.1; omega, h.2.1, by have := h.2.2.1; omega, h.2.2.2⟩
+
+/-- the bytes of one character decode to one character -/
+theorem decodeList_one : ∀ (s : List Nat) (b : Nat) (rest : List Nat), s = b :: rest →
+    s.length = codepointLen b → (decodeList s).length = 1 := by
+  intro s b rest hs hl
+  subst hs
+  unfold codepointLen at hl
+  unfold decodeList
+  split at hl
+  · rename_i h
+    have : rest = [] := by cases rest <;> simp_all
+    subst this; simp [h, decodeList]
+  · rename_i h
+    simp only [h, ↓reduceIte]
+    split at hl
+    · rename_i h2
+      simp only [h2, ↓reduceIte]
+      match rest, hl with
+      | [c1], _ => simp [decodeList]
+    · rename_i h2
+      simp only [h2, ↓reduceIte]
+      split at hl
+      · rename_i h3
+        simp only [h3, ↓reduceIte]
+        match rest, hl with
+        | [c1, c2], _ => simp [decodeList]
+      · rename_i h3
+        simp only [h3, ↓reduceIte]
+        match rest, hl with
+        | [c1, c2, c3], _ => simp [decodeList]
+
+theorem decode_char_slice {re : Bytes} {ix b : Nat} (hg : re[ix]? = some b)
+    (hsz : ix + codepointLen b ≤ re.size) :
+    (decodeList (re.extract ix (ix + codepointLen b)).toList).length = 1 := by
+  have hpos := codepointLen_pos b
+  have hlen : (re.extract ix (ix + codepointLen b)).toList.length = codepointLen b := by
+    simp only [Array.length_toList, Array.size_extract, Nat.min_eq_left hsz]; omega
+  have hhead : (re.extract ix (ix + codepointLen b)).toList[0]? = some b := by
+    rw [Array.getElem?_toList, Array.getElem?_extract, Nat.min_eq_left hsz, if_pos (by omega)]
+    simpa using hg
+  cases hl : (re.extract ix (ix + codepointLen b)).toList with
+  | nil => rw [hl] at hlen; simp at hlen; omega
+  | cons x rest =>
+    rw [hl] at hhead hlen
+    simp at hhead; subst hhead
+    exact decodeList_one _ x rest rfl hlen
+
+
+theorem goodS_parseEscape {re : Bytes} (hwf : WF re) {isAlnum : Char → Bool} (hal : AlnumOK isAlnum)
+    (st : PState) {ix : Nat} (inClass : Bool) (hg : re[ix]? = some (ch '\\')) :
+    GoodS re (Item re ix 2) (parseEscape isAlnum re st ix inClass) := by
+  have hb0 : isBoundary re ix = true := isBoundary_of_ascii hg (by decide)
+  have hb1 : isBoundary re (ix + 1) = true := hwf.step_ascii hg (by decide)
+  have hix := isBoundary_le hb0
+  unfold parseEscape
+  cases hg1 : re[ix + 1]? with
+  | none => simpa using hix
+  | some b =>
+    simp only
+    have hbe : isBoundary re (ix + 1 + codepointLen b) = true := hwf.step hg1 hb1
+    have hpos := codepointLen_pos b
+    have hsz := isBoundary_le hbe
+    generalize hend : ix + 1 + codepointLen b = end_ at *
+    have hlt : ix < end_ := by omega
+    have simple : ∀ (e : Expr), depth e ≤ 2 → lit1 e → GoodS re (Item re ix 2) (.ok (end_, e, st)) :=
+      fun e he hl => ⟨hlt, hbe, he, hl⟩
+    have hexcase : ∀ digits, 0 < digits → digits ≤ 8 → GoodS re (Item re ix 2)
+        (do let (e, x) ← parseHex re st.flags end_ digits; Res.ok (e, x, st)) := by
+      intro digits h1 h2
+      refine GoodS.bind (goodS_parseHex hwf st.flags hbe h1 h2) (fun r hr => ?_)
+      obtain ⟨e, x⟩ := r
+      obtain ⟨h3, h4, c, ci, h5⟩ := hr
+      simp only at h5; subst h5
+      exact ⟨by simp only; omega, h4, by simp [depth], by simp [lit1]⟩
+    -- digit
+    refine GoodS.ite (fun h => ?_) (fun _ => ?_)
+    · exact (goodS_parseNumberedBackref hwf st hb1 _).mono fun r hr => hr.mono (by omega) (by omega)
+    -- \k
+    refine GoodS.ite (fun h => ?_) (fun _ => ?_)
+    · refine GoodS.ite (fun _ => ?_) (fun _ => ?_)
+      · exact (goodS_namedQuote hwf hal st _ hbe).mono fun r hr => hr.mono (by omega) (by omega)
+      · exact (goodS_namedAngle hwf hal st _ hbe).mono fun r hr => hr.mono (by omega) (by omega)
+    -- \A \z \Z
+    refine GoodS.ite (fun h => simple _ (by simp [depth]) (by simp [lit1])) (fun _ => ?_)
+    refine GoodS.ite (fun h => simple _ (by simp [depth]) (by simp [lit1])) (fun _ => ?_)
+    refine GoodS.ite (fun h => simple _ (by simp [depth]) (by simp [lit1])) (fun _ => ?_)
+    -- \b
+    refine GoodS.ite (fun h => ?_) (fun _ => ?_)
+    · refine GoodS.ite (fun _ => ?_) (fun _ => simple _ (by simp [depth]) (by simp [lit1]))
+      refine GoodS.bind (goodS_slice _ (by omega) hb1 hbe) (fun s _ => ?_)
+      simpa using hix
+    -- \B
+    refine GoodS.ite (fun h => ?_) (fun _ => ?_)
+    · refine GoodS.ite (fun _ => ?_) (fun _ => simple _ (by simp [depth]) (by simp [lit1]))
+      refine GoodS.bind (goodS_slice _ (by omega) hb1 hbe) (fun s _ => ?_)
+      simpa using hix
+    -- \< \>
+    refine GoodS.ite (fun h => simple _ (by simp [depth]) (by simp [lit1])) (fun _ => ?_)
+    refine GoodS.ite (fun h => simple _ (by simp [depth]) (by simp [lit1])) (fun _ => ?_)
+    -- \d \s \w
+    refine GoodS.ite (fun h => ?_) (fun _ => ?_)
+    · refine GoodS.bind (goodS_slice _ (by omega) hb0 hbe) (fun s _ => ?_)
+      exact simple _ (by simp [depth]) (by simp [lit1])
+    -- \h
+    refine GoodS.ite (fun h => simple _ (by simp [depth]) (by simp [lit1])) (fun _ => ?_)
+    -- \x \u \U
+    refine GoodS.ite (fun h => hexcase 2 (by omega) (by omega)) (fun _ => ?_)
+    refine GoodS.ite (fun h => hexcase 4 (by omega) (by omega)) (fun _ => ?_)
+    refine GoodS.ite (fun h => hexcase 8 (by omega) (by omega)) (fun _ => ?_)
+    -- \p
+    refine GoodS.ite (fun h => ?_) (fun _ => ?_)
+    · have hne : end_ ≠ re.size := by
+        have := ((Bool.and_eq_true _ _).mp h).2
+        simpa using this
+      refine GoodS.bind (goodS_byteAt _ (by omega)) (fun b2 hb2 => ?_)
+      have hbe1 := hwf.step hb2 hbe
+      have hpos2 := codepointLen_pos b2
+      refine GoodS.bind (P := fun e2 => end_ < e2 ∧ isBoundary re e2 = true) ?_ (fun e2 he2 => ?_)
+      · refine GoodS.ite (fun _ => ?_) (fun _ => ⟨by omega, hbe1⟩)
+        exact (goodS_uniNameLoop hwf ix hix _ _ hbe1 (by omega)).mono fun a ha => ⟨by omega, ha.2⟩
+      · refine GoodS.bind (goodS_slice _ (by omega) hb0 he2.2) (fun s _ => ?_)
+        exact ⟨by simp only; omega, he2.2, by simp [depth], by simp [lit1]⟩
+    -- \K \G
+    refine GoodS.ite (fun h => simple _ (by simp [depth]) (by simp [lit1])) (fun _ => ?_)
+    refine GoodS.ite (fun h => simple _ (by simp [depth]) (by simp [lit1])) (fun _ => ?_)
+    -- \g
+    refine GoodS.ite (fun h => ?_) (fun _ => ?_)
+    · refine GoodS.ite (fun _ => by simpa using hix) (fun hne => ?_)
+      have hne' : end_ ≠ re.size := by simpa using hne
+      refine GoodS.bind (goodS_byteAt _ (by omega)) (fun b2 hb2 => ?_)
+      refine GoodS.ite (fun _ => ?_) (fun _ => ?_)
+      · exact (goodS_parseNumberedBackref hwf st hbe _).mono fun r hr => hr.mono (by omega) (by omega)
+      refine GoodS.ite (fun _ => ?_) (fun _ => ?_)
+      · exact (goodS_namedQuote hwf hal st _ hbe).mono fun r hr => hr.mono (by omega) (by omega)
+      · exact (goodS_namedAngle hwf hal st _ hbe).mono fun r hr => hr.mono (by omega) (by omega)
+    -- single-letter escapes
+    refine GoodS.ite (fun h => simple _ (by simp [depth, makeLiteral]) (by simp [lit1, makeLiteral])) (fun _ => ?_)
+    refine GoodS.ite (fun h => simple _ (by simp [depth, makeLiteral]) (by simp [lit1, makeLiteral])) (fun _ => ?_)
+    refine GoodS.ite (fun h => simple _ (by simp [depth, makeLiteral]) (by simp [lit1, makeLiteral])) (fun _ => ?_)
+    refine GoodS.ite (fun h => simple _ (by simp [depth, makeLiteral]) (by simp [lit1, makeLiteral])) (fun _ => ?_)
+    refine GoodS.ite (fun h => simple _ (by simp [depth, makeLiteral]) (by simp [lit1, makeLiteral])) (fun _ => ?_)
+    refine GoodS.ite (fun h => simple _ (by simp [depth, makeLiteral]) (by simp [lit1, makeLiteral])) (fun _ => ?_)
+    refine GoodS.ite (fun h => simple _ (by simp [depth, makeLiteral]) (by simp [lit1, makeLiteral])) (fun _ => ?_)
+    refine GoodS.ite (fun h => simple _ (by simp [depth, makeLiteral]) (by simp [lit1, makeLiteral])) (fun _ => ?_)
+    refine GoodS.ite (fun h => simple _ (by simp [depth, makeLiteral]) (by simp [lit1, makeLiteral])) (fun _ => ?_)
+    refine GoodS.bind (goodS_slice _ (by omega) hb1 hbe) (fun s hs => ?_)
+    refine GoodS.ite (fun _ => by simpa using hix) (fun _ => simple _ (by simp [depth, makeLiteral]) ?_)
+    subst hs
+    subst hend
+    simpa [lit1, makeLiteral] using decode_char_slice hg1 hsz
+
+/-! ## `parse_class` -/
+
+/-- the loop of `parse_class` from a boundary: it stops at a `]` -/
+theorem goodS_classLoop {re : Bytes} (hwf : WF re) {isAlnum : Char → Bool} (hal : AlnumOK isAlnum) :
+    ∀ (f : Nat) (st : PState) (ix : Nat) (nest : Int) (rcls : List Char),
+    isBoundary re ix = true → re.size < ix + f →
+    GoodS re (fun r => ix ≤ r.1 ∧ re[r.1]? = some (ch ']'))
+      (classLoop isAlnum f re st ix nest rcls) := by
+  intro f
+  induction f with
+  | zero => intro st ix nest rcls hb hf; have := isBoundary_le hb; omega
+  | succ f ih =>
+    intro st ix nest rcls hb hf
+    have hix := isBoundary_le hb
+    unfold classLoop
+    refine GoodS.ite (fun _ => by simpa using hix) (fun hne => ?_)
+    have hlt := lt_of_ne_size hb hne
+    cases hg : re[ix]? with
+    | none => rw [Array.getElem?_eq_none_iff] at hg; omega
+    | some b =>
+      simp only
+      refine GoodS.ite (fun hc => ?_) (fun _ => ?_)
+      · have hbs : b = ch '\\' := by simpa using hc
+        subst hbs
+        have hesc := goodS_parseEscape hwf hal st true hg
+        cases hres : parseEscape isAlnum re st ix true with
+        | ok r =>
+          rw [hres] at hesc
+          obtain ⟨end_, e, st'⟩ := r
+          obtain ⟨h1, h2, h3, h4⟩ := hesc
+          simp only at h1 h2 h4
+          cases e with
+          | literal val ci =>
+            simp only
+            have hv : val.length = 1 := h4
+            simp only [hv, bne_self_eq_false, Bool.false_eq_true, ↓reduceIte]
+            exact (ih _ _ _ _ h2 (by omega)).mono fun r hr => ⟨by omega, hr.2⟩
+          | delegate inner size ci =>
+            simp only
+            exact (ih _ _ _ _ h2 (by omega)).mono fun r hr => ⟨by omega, hr.2⟩
+          | _ => simpa using hix
+        | err k p => rw [hres] at hesc; simpa using hesc
+        | cerr => simp
+        | panic s => rw [hres] at hesc; exact hesc.elim
+        | outOfFuel => rw [hres] at hesc; exact hesc.elim
+      refine GoodS.ite (fun hc => ?_) (fun _ => ?_)
+      · have hbs : b = ch '[' := by simpa using hc
+        subst hbs
+        exact (ih _ _ _ _ (hwf.step_ascii hg (by decide)) (by omega)).mono fun r hr => ⟨by omega, hr.2⟩
+      refine GoodS.ite (fun hc => ?_) (fun _ => ?_)
+      · have hbs : b = ch ']' := by simpa using hc
+        subst hbs
+        refine GoodS.ite (fun _ => ⟨Nat.le_refl _, hg⟩) (fun _ => ?_)
+        exact (ih _ _ _ _ (hwf.step_ascii hg (by decide)) (by omega)).mono fun r hr => ⟨by omega, hr.2⟩
+      · have hbe := hwf.step hg hb
+        have hpos := codepointLen_pos b
+        have hsl := goodS_slice "parse_class: self.re[ix..end]" (by omega : ix ≤ ix + codepointLen b) hb hbe
+        cases hres : slice re ix (ix + codepointLen b) "parse_class: self.re[ix..end]" with
+        | ok s =>
+          simp only
+          exact (ih _ _ _ _ hbe (by omega)).mono fun r hr => ⟨by omega, hr.2⟩
+        | err k p => rw [hres] at hsl; simpa using hsl
+        | cerr => simp
+        | panic s => rw [hres] at hsl; exact hsl.elim
+        | outOfFuel => rw [hres] at hsl; exact hsl.elim
+
+/-- `parse_class` at a `[` -/
+theorem goodS_parseClass {re : Bytes} (hwf : WF re) {isAlnum : Char → Bool} (hal : AlnumOK isAlnum)
+    (st : PState) {ix : Nat} (hg : re[ix]? = some (ch '[')) :
+    GoodS re (Item re ix 1) (parseClass isAlnum re st ix) := by
+  have hb1 : isBoundary re (ix + 1) = true := hwf.step_ascii hg (by decide)
+  unfold parseClass
+  simp only
+  -- after the optional `^` and the optional `]` the index is a boundary to the right of `ix`
+  generalize hp1 : (if (re[ix + 1]? == some (ch '^')) = true then (ix + 1 + 1, ['^', '[']) else (ix + 1, ['['])) = p1
+  have h1 : ix < p1.1 ∧ isBoundary re p1.1 = true := by
+    subst hp1
+    split
+    · rename_i h; exact ⟨by simp only; omega, hwf.step_ascii (by simpa using h) (by decide)⟩
+    · exact ⟨by simp only; omega, hb1⟩
+  obtain ⟨i1, r1⟩ := p1
+  simp only at h1 ⊢
+  generalize hp2 : (if (re[i1]? == some (ch ']')) = true then (i1 + 1, ']' :: r1) else (i1, r1)) = p2
+  have h2 : ix < p2.1 ∧ isBoundary re p2.1 = true := by
+    subst hp2
+    split
+    · rename_i h; exact ⟨by simp only; omega, hwf.step_ascii (by simpa using h) (by decide)⟩
+    · exact h1
+  obtain ⟨i2, r2⟩ := p2
+  simp only at h2 ⊢
+  refine GoodS.bind (goodS_classLoop hwf hal (re.size + 2) st i2 1 r2 h2.2 (by omega)) (fun r hr => ?_)
+  obtain ⟨i3, r3, st3⟩ := r
+  simp only at hr ⊢
+  exact ⟨by omega, hwf.step_ascii hr.2 (by decide), by simp [depth], by simp [lit1]⟩
+
+/-! ## `check_for_close_paren`, `parse_flags` -/
+
+/-- `check_for_close_paren` from a boundary -/
+theorem goodS_checkForCloseParen {re : Bytes} (hwf : WF re) (fl : Flags) {ix : Nat}
+    (hb : isBoundary re ix = true) :
+    GoodS re (fun ix' => ix < ix' ∧ isBoundary re ix' = true) (checkForCloseParen re fl ix) := by
+  unfold checkForCloseParen
+  refine GoodS.bind (goodS_optWs' hwf fl hb) (fun ix1 h1 => ?_)
+  refine GoodS.ite (fun _ => by simpa using isBoundary_le h1.2) (fun hne => ?_)
+  refine GoodS.bind (goodS_byteAt _ (lt_of_ne_size h1.2 hne)) (fun b hb => ?_)
+  refine GoodS.ite (fun _ => by simpa using isBoundary_le h1.2) (fun hc => ?_)
+  have : b = ch ')' := by simpa using hc
+  subst this
+  exact ⟨by omega, hwf.step_ascii hb (by decide)⟩
+
+/-- `unknown_flag(re, start, end)` with `start ≤ end < len`, both boundaries -/
+theorem goodS_unknownFlag {re : Bytes} (hwf : WF re) {start end_ : Nat} (hse : start ≤ end_)
+    (hbs : isBoundary re start = true) (hbe : isBoundary re end_ = true) (hlt : end_ < re.size) :
+    GoodS re (fun _ => True) (unknownFlag re start end_) := by
+  unfold unknownFlag
+  refine GoodS.bind (goodS_byteAt _ hlt) (fun b hb => ?_)
+  have := codepointLen_pos b
+  refine GoodS.bind (goodS_slice _ (by omega) hbs (hwf.step hb hbe)) (fun s _ => ?_)
+  trivial
+
+/-- the error `parse_flags` makes of `unknown_flag` -/
+theorem goodS_unknownFlagErr {re : Bytes} (hwf : WF re) {α : Type} (P : α → Prop) {start end_ : Nat}
+    (hse : start ≤ end_)
+    (hbs : isBoundary re start = true) (hbe : isBoundary re end_ = true) (hlt : end_ < re.size) :
+    GoodS re P (match unknownFlag re start end_ with
+      | .ok e => .err e start
+      | .err k p => .err k p | .cerr => .cerr | .panic s => .panic s | .outOfFuel => .outOfFuel) := by
+  have h := goodS_unknownFlag hwf hse hbs hbe hlt
+  cases hres : unknownFlag re start end_ with
+  | ok e => simpa using isBoundary_le hbs
+  | err k p => rw [hres] at h; simpa using h
+  | cerr => simp
+  | panic s => rw [hres] at h; exact h.elim
+  | outOfFuel => rw [hres] at h; exact h.elim
+
+/-- what the letter loop of `parse_flags` stops at -/
+def FlagsEndOK (re : Bytes) (ix : Nat) : FlagsEnd → Prop
+  | .close i => ix ≤ i ∧ re[i]? = some (ch ')')
+  | .colon i => ix ≤ i ∧ re[i]? = some (ch ':')
+
+theorem updateFlag_ascii {b : Nat}
+    (h : (b == ch 'i' || b == ch 'm' || b == ch 's' || b == ch 'U' || b == ch 'x') = true) :
+    b < 128 := by
+  simp only [ch, Bool.or_eq_true, beq_iff_eq] at h
+  rcases h with (((h | h) | h) | h) | h <;> (subst h; decide)
+
+/-- the letter loop of `parse_flags` -/
+theorem goodS_flagsLoop {re : Bytes} (hwf : WF re) {start : Nat} (hbs : isBoundary re start = true) :
+    ∀ (f : Nat) (fl : Flags) (ix : Nat) (neg : Bool), start ≤ ix → isBoundary re ix = true →
+    re.size < ix + f →
+    GoodS re (fun r => FlagsEndOK re ix r.1) (flagsLoop f re fl start ix neg) := by
+  intro f
+  induction f with
+  | zero => intro fl ix neg _ hb hf; have := isBoundary_le hb; omega
+  | succ f ih =>
+    intro fl ix neg hsi hb hf
+    unfold flagsLoop
+    have hws := goodS_optWs' hwf fl hb
+    cases hres : optWs re fl ix with
+    | ok ix1 =>
+      rw [hres] at hws
+      obtain ⟨h1, h2⟩ := hws
+      simp only
+      have hsz := isBoundary_le h2
+      refine GoodS.ite (fun _ => by simpa using hsz) (fun hne => ?_)
+      have hlt := lt_of_ne_size h2 hne
+      cases hg : re[ix1]? with
+      | none => rw [Array.getElem?_eq_none_iff] at hg; omega
+      | some b =>
+        simp only
+        have next : ∀ fl' neg', b < 128 →
+            GoodS re (fun r => FlagsEndOK re ix r.1) (flagsLoop f re fl' start (ix1 + 1) neg') := by
+          intro fl' neg' hb128
+          refine (ih fl' (ix1 + 1) neg' (by omega) (hwf.step_ascii hg hb128) (by omega)).mono ?_
+          intro r hr
+          cases hr1 : r.1 with
+          | close i => rw [hr1] at hr; exact ⟨by have := hr.1; omega, hr.2⟩
+          | colon i => rw [hr1] at hr; exact ⟨by have := hr.1; omega, hr.2⟩
+        have uf : ∀ {α : Type} (P : α → Prop), GoodS re P (match unknownFlag re start ix1 with
+            | .ok e => .err e start
+            | .err k p => .err k p | .cerr => .cerr | .panic s => .panic s
+            | .outOfFuel => .outOfFuel) :=
+          fun P => goodS_unknownFlagErr hwf P (by omega) hbs h2 hlt
+        refine GoodS.ite (fun hc => next _ _ (updateFlag_ascii hc)) (fun _ => ?_)
+        refine GoodS.ite (fun hc => ?_) (fun _ => ?_)
+        · have : b = ch 'u' := by simpa using hc
+          subst this
+          exact GoodS.ite (fun _ => by simpa using hsz) (fun _ => next _ _ (by decide))
+        refine GoodS.ite (fun hc => ?_) (fun _ => ?_)
+        · have : b = ch '-' := by simpa using hc
+          subst this
+          exact GoodS.ite (fun _ => uf _) (fun _ => next _ _ (by decide))
+        refine GoodS.ite (fun hc => ?_) (fun _ => ?_)
+        · have : b = ch ')' := by simpa using hc
+          subst this
+          exact GoodS.ite (fun _ => uf _) (fun _ => ⟨h1, hg⟩)
+        refine GoodS.ite (fun hc => ?_) (fun _ => uf _)
+        · have : b = ch ':' := by simpa using hc
+          subst this
+          exact GoodS.ite (fun _ => uf _) (fun _ => ⟨h1, hg⟩)
+    | err k p => rw [hres] at hws; simpa using hws
+    | cerr => simp
+    | panic s => rw [hres] at hws; exact hws.elim
+    | outOfFuel => rw [hres] at hws; exact hws.elim
+
+/-- **parse_flags' letter loop** (valid UTF-8, `start` and `ix` boundaries, as `parse_flags` calls
+    it): it stops at a `)` or `:` not to the left of `ix`; errors are inside the pattern; no
+    panic; no fuel exhaustion -/
+theorem C06_flagsLoop_bounds {re : Bytes} (hwf : WF re) (fl : Flags) {start : Nat}
+    (hbs : isBoundary re start = true) :
+    (∀ e fl', flagsLoop (re.size + 2) re fl start start false = .ok (e, fl') →
+        FlagsEndOK re start e) ∧
+    (∀ k p, flagsLoop (re.size + 2) re fl start start false = .err k p → p ≤ re.size) ∧
+    (∀ s, flagsLoop (re.size + 2) re fl start start false ≠ .panic s) ∧
+    flagsLoop (re.size + 2) re fl start start false ≠ .outOfFuel := by
+  have h := goodS_flagsLoop hwf hbs (re.size + 2) fl start false (Nat.le_refl _) hbs (by omega)
+  refine ⟨fun e fl' he => ?_, fun k p e => ?_, fun s e => ?_, fun e => ?_⟩
+  · rw [he] at h; exact h
+  · rw [e] at h; exact h
+  · rw [e] at h; exact h
+  · rw [e] at h; exact h
 
 end Fancy.Parse
